@@ -110,6 +110,12 @@ def roundtrip(msg, defn, enc):
     return out
 
 
+def _prefs():
+    from nmea2000.consts import PhysicalQuantities as PQ
+    return {PQ.TEMPERATURE: "c", PQ.PRESSURE: "bar", PQ.ANGLE: "deg", PQ.SPEED: "kts"}
+
+
+PREFS = _prefs()
 ADDRESSING = [(3, 7, 255), (0, 0, 0), (7, 254, 0), (6, 1, 254), (2, 253, 37), (7, 0, 255)]
 
 
@@ -119,6 +125,7 @@ def _task_a(args):
     plain_dec = NMEA2000Decoder()
     mapped = NMEA2000Decoder(build_network_map=True)
     mapped.decode_tcp(wire.claim_packet(7, wire.iso_name(unique=77, mfr=1855)))
+    prefs_dec = NMEA2000Decoder(preferred_units=PREFS)       # messages whose values were converted to the preferred units
     enc = NMEA2000Encoder()
     vios = []
     st = {"cases": 0, "roundtrips": 0, "nontrivial": 0}
@@ -128,7 +135,7 @@ def _task_a(args):
         per_def = 0
         for label, p, n in enumerate_cases(defn, 2, 8 if deep else 0, seed, payloads.BASES, k2_bases=("mid",) if deep else ()):
             st["cases"] += 1
-            dec = mapped if st["cases"] % 3 == 0 else plain_dec
+            dec = mapped if st["cases"] % 3 == 0 else (prefs_dec if st["cases"] % 3 == 1 and st["cases"] % 2 else plain_dec)
             # addressing varies with the case: the extreme legal priorities, sources and (for addressed PGNs) destinations included
             prio, src, dst = ADDRESSING[(st["cases"] // 3) % len(ADDRESSING)]
             if dec is mapped:
@@ -150,8 +157,8 @@ def _task_a(args):
                 if per_def <= 20:
                     vios.append({"kind": kind, "facts": dict(facts, definition=msg.id),
                                  "signature": f"{kind}:{defn.pgn}:{msg.id}:{facts.get('field')}:{facts.get('which')}",
-                                 "detail": f"[PGN {defn.pgn} {msg.id} payload={p.to_bytes(n, 'little').hex()[:80]} identity={'yes' if dec is mapped else 'no'}] {detail}",
-                                 "case": {"part": "a", "pgn": defn.pgn, "payload_hex": p.to_bytes(n, "little").hex(), "mapped": dec is mapped, "addr": [prio, src, dst]}})
+                                 "detail": f"[PGN {defn.pgn} {msg.id} payload={p.to_bytes(n, 'little').hex()[:80]} identity={'yes' if dec is mapped else 'no'}{' unit preferences' if dec is prefs_dec else ''}] {detail}",
+                                 "case": {"part": "a", "pgn": defn.pgn, "payload_hex": p.to_bytes(n, "little").hex(), "mapped": dec is mapped, "prefs": dec is prefs_dec, "addr": [prio, src, dst]}})
             if sample is None and label[1] and any(isinstance(f.value, (bytes, dt.date, dt.time)) for f in msg.fields):
                 sample = {"part": "a", "pgn": defn.pgn, "definition": msg.id, "payload_hex": p.to_bytes(n, "little").hex(), "json": msg.to_json()[:300]}
     return st, vios, sample
@@ -301,10 +308,10 @@ def _task_e(args):
             if n == 0 or n > 223 or (not defn.fast and n > 8):
                 continue
             payload = p.to_bytes(n, "little")
-            for mapped in (False, True):
+            for mapped in (False, True, "prefs"):
                 for name, fn in wire.entry_points(defn.pgn, payload, defn.fast, prio=6, src=7, dst=255 if ((defn.pgn >> 8) & 0xFF) >= 240 else 0).items():
-                    dec = NMEA2000Decoder(build_network_map=mapped)
-                    if mapped:
+                    dec = NMEA2000Decoder(build_network_map=mapped is True, preferred_units=PREFS if mapped == "prefs" else {})
+                    if mapped is True:
                         dec.decode_tcp(wire.claim_packet(7, wire.iso_name(unique=77, mfr=1855)))
                     st["cases"] += 1
                     try:
@@ -319,7 +326,7 @@ def _task_e(args):
                         if len(vios) < 40:
                             vios.append({"kind": kind, "facts": dict(facts, definition=msg.id, entry=name, mechanism="depends_on_entry_point"),
                                          "signature": f"entry:{kind}:{defn.pgn}:{msg.id}:{name}",
-                                         "detail": f"[PGN {defn.pgn} {msg.id} payload={payload.hex()[:60]} decoded through {name} identity={'yes' if mapped else 'no'}] {detail}",
+                                         "detail": f"[PGN {defn.pgn} {msg.id} payload={payload.hex()[:60]} decoded through {name} identity={'yes' if mapped is True else 'no'}{' unit preferences' if mapped == 'prefs' else ''}] {detail}",
                                          "case": {"part": "e", "pgn": defn.pgn, "definition": defn.id, "payload_hex": payload.hex(), "entry": name, "mapped": mapped}})
     return st, vios, None
 
@@ -382,6 +389,8 @@ def replay(ctx, rep):
         if c.get("mapped"):
             dec = NMEA2000Decoder(build_network_map=True)
             dec.decode_tcp(wire.claim_packet(7, wire.iso_name(unique=77, mfr=1855)))
+        elif c.get("prefs"):
+            dec = NMEA2000Decoder(preferred_units=PREFS)
         else:
             dec = NMEA2000Decoder()
         prio, src, dst = c.get("addr", [3, 7, 255])
